@@ -121,6 +121,8 @@ fn template() -> Tpl {
         add(w, UUID_IDM_HIGH_PRIVILEGE, person_uuid(HP_DIRECT))?;
         add(w, UUID_IDM_HIGH_PRIVILEGE, Uuid::from_u128(HP_GROUP))?;
         add(w, UUID_IDM_SERVICE_DESK, person_uuid(HP_SVC))?;
+        // an ordinary group the actor is the entry manager of (a legitimate delegation)
+        w.qs_write.internal_modify_uuid(Uuid::from_u128(PLAIN_GROUP), &ModifyList::new_list(vec![Modify::Present(Attribute::EntryManagedBy, Value::Refer(person_uuid(ACTOR)))]))?;
         // things to take away: a login session, an API token, POSIX password, RADIUS secret
         use kanidmd_lib::server::identity::IdentityId;
         use kanidmd_lib::value::{ApiToken, ApiTokenScope, AuthType, Session, SessionScope, SessionState};
@@ -183,13 +185,21 @@ fn run_actor(t: &Tpl, groups: &[Uuid], targets: &[(Uuid, &'static str)]) -> Stri
     let acts = actions();
     for (ti, (target, _)) in targets.iter().enumerate() {
         for (ai, a) in acts.iter().enumerate() {
+          // the request selects the target alone, or together with an entry the actor may
+          // legitimately change (its own entry; a group it manages)
+          let companions: Vec<(Option<Uuid>, &str)> = if matches!(a, Act::Modify(..) | Act::Delete) { vec![(None, ""), (Some(person_uuid(ACTOR)), "[+self] "), (Some(Uuid::from_u128(PLAIN_GROUP)), "[+managed] ")] } else { vec![(None, "")] };
+          for (companion, tag) in companions {
+            let selector = || match companion {
+                None => Filter::new(f_eq(Attribute::Uuid, PartialValue::Uuid(*target))),
+                Some(c) => Filter::new(f_or(vec![f_eq(Attribute::Uuid, PartialValue::Uuid(*target)), f_eq(Attribute::Uuid, PartialValue::Uuid(c))])),
+            };
             let before = render(idm, *target);
             let (label, granted): (String, bool) = match a {
                 Act::Modify(_, mk) => {
                     let r = idm.rt.block_on(async {
                         let mut w = idm.idms.proxy_write(now()).await?;
                         let id = ident_of(&mut w.qs_write, person_uuid(ACTOR), AccessScope::ReadWrite)?;
-                        let me = ModifyEvent::from_internal_parts(id, &mk(), &Filter::new(f_eq(Attribute::Uuid, PartialValue::Uuid(*target))), &w.qs_write)?;
+                        let me = ModifyEvent::from_internal_parts(id, &mk(), &selector(), &w.qs_write)?;
                         let r = w.qs_write.modify(&me);
                         if r.is_ok() {
                             w.commit()?;
@@ -202,7 +212,7 @@ fn run_actor(t: &Tpl, groups: &[Uuid], targets: &[(Uuid, &'static str)]) -> Stri
                     let r = idm.rt.block_on(async {
                         let mut w = idm.idms.proxy_write(now()).await?;
                         let id = ident_of(&mut w.qs_write, person_uuid(ACTOR), AccessScope::ReadWrite)?;
-                        let de = DeleteEvent::from_parts(id, &Filter::new(f_eq(Attribute::Uuid, PartialValue::Uuid(*target))), &mut w.qs_write)?;
+                        let de = DeleteEvent::from_parts(id, &selector(), &mut w.qs_write)?;
                         let r = w.qs_write.delete(&de);
                         if r.is_ok() {
                             w.commit()?;
@@ -235,7 +245,8 @@ fn run_actor(t: &Tpl, groups: &[Uuid], targets: &[(Uuid, &'static str)]) -> Stri
             let after = render(idm, *target);
             // a reset link is stored on the target: that is the grant itself, judged by `granted`
             let changed = before != after && !matches!(a, Act::ResetLink | Act::CredSession);
-            out.push(format!("{ti}|{ai}|{label}|{}", changed || granted));
+            out.push(format!("{ti}|{ai}|{tag}{label}|{}", changed || granted));
+          }
         }
     }
     out.join("\n")
@@ -331,7 +342,7 @@ pub fn run(args: &[String]) -> ! {
             if p[3] == "true" {
                 nbad += 1;
                 ctx.violation(
-                    &format!("hp_target_changed:{}:{}", act_name(&acts[ai]).replace(' ', "_"), hp_targets[ti].1.replace(' ', "_")),
+                    &format!("hp_target_changed:{}:{}{}", act_name(&acts[ai]).replace(' ', "_"), hp_targets[ti].1.replace(' ', "_"), if p[2].starts_with("[+self]") { ":selected_together_with_the_actor's_own_entry" } else if p[2].starts_with("[+managed]") { ":selected_together_with_a_group_the_actor_manages" } else { "" }),
                     &format!("an actor whose only built-in roles are {names:?} (not high privilege) could [{}] on the {}: answered {}", act_name(&acts[ai]), hp_targets[ti].1, p[2]),
                     json!({"groups": s, "group_names": names, "action": act_name(&acts[ai]), "target": hp_targets[ti].1}),
                 );
@@ -340,7 +351,7 @@ pub fn run(args: &[String]) -> ! {
     }
     ctx.set("evaluations", evals);
     ctx.set("distinct_nontrivial", nontrivial);
-    ctx.set("rule", format!("actor = member of every subset (quick: size <= 2; thorough: all) of the {n} built-in groups that are not inside idm_high_privilege, plus its automatic memberships; targets = 6 high-privilege entries; actions = {} requests; non-trivial = actions shown to be well formed (a fully privileged actor can perform them on an ordinary target)", acts.len()));
+    ctx.set("rule", format!("actor = member of every subset (quick: size <= 2; thorough: all) of the {n} built-in groups that are not inside idm_high_privilege, plus its automatic memberships; targets = 6 high-privilege entries; actions = {} requests, the modify and delete requests selecting the target alone, together with the actor's own entry, and together with an ordinary group the actor manages; non-trivial = actions shown to be well formed (a fully privileged actor can perform them on an ordinary target)", acts.len()));
     ctx.set("non_hp_builtin_groups", json!(t.role_groups.iter().map(|g| g.1.clone()).collect::<Vec<_>>()));
     ctx.set("groups_the_actor_could_actually_join", json!(joinable.iter().map(|i| t.role_groups[*i].1.clone()).collect::<Vec<_>>()));
     ctx.set("hp_builtin_groups", t.hp_groups.len() as u64);
